@@ -241,6 +241,19 @@ Check C12_version_order_total_preorder :
   (forall x y z, veq x y = true -> vcmp x z = vcmp y z /\ vcmp z x = vcmp z y).
 Print Assumptions C12_version_order_total_preorder.
 
+(* Policy: "the absence of a debian_revision is equivalent to a debian_revision of 0" (what
+   debversion does); dpkg compares an absent revision as the empty string.  Same ordering. *)
+Theorem C12_absent_revision_conventions_agree :
+  forall x y,
+  let dpkg v := mk_version (epoch v) (upstream v) (Some (match revision v with Some r => r | None => [] end)) in
+  vcmp (dpkg x) (dpkg y) = vcmp x y.
+Proof. exact vcmp_absent_revision. Qed.
+Check C12_absent_revision_conventions_agree :
+  forall x y,
+  let dpkg v := mk_version (epoch v) (upstream v) (Some (match revision v with Some r => r | None => [] end)) in
+  vcmp (dpkg x) (dpkg y) = vcmp x y.
+Print Assumptions C12_absent_revision_conventions_agree.
+
 (* ================================================================== (C) debversion 0.4.4 *)
 (* the crate's Ord/PartialEq return the reference answer when no digit run exceeds i32::MAX *)
 Theorem C12_debversion_is_reference_when_safe :
